@@ -404,6 +404,12 @@ class BatchTie:
                 if a is None:
                     continue      # intermediate line of a composite operation
                 if a != b and not (self.skip and self.skip(a, b)):
+                    if os.environ.get("VERIF_DEBUG"):
+                        log("DEBUG mismatch in", tag)
+                        for j in range(len(ls)):
+                            log("  line", j, ls[j])
+                            log("   impl", impl[j])
+                            log("   lean", got[j])
                     self.ctx.tie_broken.append(
                         "correspondence:%s %s line %d %r impl=%s lean=%s"
                         % (self.name, tag, i, ls[i][:80], a[:100], b[:100]))
